@@ -11,7 +11,7 @@
 (* Scores may be any totally ordered integers (exact values or ranks for   *)
 (* Greedy; exact values for Optimal, whose sums are not rank invariant).   *)
 (***************************************************************************)
-EXTENDS Integers, Sequences, FiniteSets, SequencesExt
+EXTENDS Integers, Sequences, FiniteSets, SequencesExt, TLC
 
 Idx(K) == 1..K
 IsPerm(m, K) == /\ DOMAIN m = 1..K
@@ -58,8 +58,6 @@ Optimal(S) ==
                                     \/ (Score(S, q) = Score(S, p) /\ LexLe(p, q))
 MaxScore(S) == LET P == Perms(Len(S))
                IN  CHOOSE v \in {Score(S, p) : p \in P} : \A p \in P : Score(S, p) <= v
-OptimalHasTie(S) == \E p, q \in Perms(Len(S)) :
-                       p # q /\ Score(S, p) = MaxScore(S) /\ Score(S, q) = MaxScore(S)
 
 \* all permutations of 1..K as a sequence in lexicographic order (= itertools.permutations)
 RECURSIVE PermSeqOf(_)
@@ -70,6 +68,13 @@ PermSeqOf(elems) ==      \* elems: strictly increasing sequence of the remaining
                          IN  [j \in 1..Len(rest) |-> <<elems[i]>> \o rest[j]],
                 <<>>, [i \in 1..Len(elems) |-> i])
 PermSeqs == [k \in 1..6 |-> PermSeqOf([i \in 1..k |-> i])]
+PermSet(K) == {PermSeqs[K][i] : i \in 1..Len(PermSeqs[K])}
+MaxScoreSeq(S) == LET ps == PermSeqs[Len(S)]
+                  IN  FoldLeft(LAMBDA acc, i : IF Score(S, ps[i]) > acc THEN Score(S, ps[i]) ELSE acc,
+                               Score(S, ps[1]), [i \in 1..Len(ps) |-> i])
+OptimalHasTie(S) == LET mx == MaxScoreSeq(S)
+                        ps == PermSeqs[Len(S)]
+                    IN  Cardinality({i \in 1..Len(ps) : Score(S, ps[i]) = mx}) > 1
 \* first maximiser of Score in generation order, strict improvement (as the code's loop)
 OptimalSeq(S) ==
   LET ps == PermSeqs[Len(S)]
@@ -79,7 +84,7 @@ OptimalSeq(S) ==
 
 \* aligned[k][f] = mask[mapping[k][f]][f]   (mask given as K x F of row identifiers)
 ApplyMapping(mask, mapping) ==
-  [k \in DOMAIN mapping |-> [f \in DOMAIN mapping[k] |-> mask[mapping[k][f]][f]]]
+  TLCEval([k \in DOMAIN mapping |-> [f \in DOMAIN mapping[k] |-> mask[mapping[k][f]][f]]])
 IsPermPerBin(mapping, K, F) ==
   /\ DOMAIN mapping = 1..K
   /\ \A k \in 1..K : DOMAIN mapping[k] = 1..F
